@@ -334,12 +334,27 @@ func genWalk(c *ctx) error {
 	if err != nil {
 		return err
 	}
+	// (directly or through helpers of the same file, one or two levels deep)
+	var transCalls func(name string, depth int) string
+	transCalls = func(name string, depth int) string {
+		fd := findFunc(serf, "", name)
+		if fd == nil || fd.Body == nil || depth > 2 {
+			return ""
+		}
+		names := callNames(fd)
+		out := strings.Join(names, " ")
+		for _, n := range names {
+			if !strings.Contains(n, ".") && n != name {
+				out += " " + transCalls(n, depth+1)
+			}
+		}
+		return out
+	}
 	for _, fn := range []string{"writeAddressOffsets", "countAddresses"} {
-		fd := findFunc(serf, "", fn)
-		if fd == nil {
+		if findFunc(serf, "", fn) == nil {
 			return fmt.Errorf("%s not found", fn)
 		}
-		calls := strings.Join(callNames(fd), " ")
+		calls := transCalls(fn, 0)
 		if !strings.Contains(calls, "val.IterAddressFields") || !strings.Contains(calls, "val.IterAdaptiveFields") {
 			return fmt.Errorf("%s no longer iterates both address and adaptive fields", fn)
 		}
